@@ -2098,6 +2098,11 @@ func (l *LabeledIPAddrPrefix) decodeFromBytes(data []byte, addrlen int, options 
 	if err := l.Labels.DecodeFromBytes(data, options...); err != nil {
 		return err
 	}
+	// RFC 8277 2.2: at least one label; an NLRI too short to hold one would
+	// otherwise be read as a plain prefix and could never be sent on
+	if len(l.Labels.Labels) == 0 {
+		return NewMessageError(BGP_ERROR_UPDATE_MESSAGE_ERROR, BGP_ERROR_SUB_MALFORMED_ATTRIBUTE_LIST, nil, "LabeledIPAddrPrefix without a label")
+	}
 
 	if bits-8*l.Labels.Len() < 0 {
 		return NewMessageError(BGP_ERROR_UPDATE_MESSAGE_ERROR, BGP_ERROR_SUB_MALFORMED_ATTRIBUTE_LIST, nil, "LabeledIPAddrPrefix declared length too short for label stack")
